@@ -84,7 +84,7 @@ any history of calls — so together they determine `Keyword/Operator/Expression
 history: the most recently accepted argument of each kind. -/
 
 theorem C06_options_keep (c : Cnd) (op : CondOp)
-    (h : match op with | .setState _ _ | .setEncapOne _ | .setEncapPair _ _ | .setErr _ => True | _ => False) :
+    (h : match op with | .setState _ _ | .setEncapOne _ | .setEncapPair _ _ | .setEncapNone | .setErr _ => True | _ => False) :
     (c.apply op).kw = c.kw ∧ (c.apply op).op = c.op ∧ (c.apply op).ex = c.ex := by
   cases op <;> simp_all [apply] <;> (repeat' split) <;> simp
 
